@@ -29,6 +29,7 @@ def ty_value(c, t):
     if t == 'b': return c.tybool()
     if t == 'i': return c.tyint()
     if t == 'e': return c.ty('TEnum', mkstr(ENUM[0]))
+    if t == 's': return c.ty('TString')
     return c.tytuple([ty_value(c, x) for x in t[1]])
 
 class Gen:
@@ -57,6 +58,7 @@ class EnumVal:
 def sym_scrutinee(t, path='s'):
     if t == 'b': return z3.Bool(path)
     if t == 'i': return z3.Int(path)
+    if t == 's': return z3.Int(path + '_str')          # string identity: 0,1,2 = "a","b","c"; 3 = any other string
     if t == 'e': return EnumVal(z3.Int(path + '_tag'), z3.Int(path + '_p'))
     return [sym_scrutinee(x, '%s_%d' % (path, i)) for i, x in enumerate(t[1])]
 def scrut_vars(v):
@@ -64,6 +66,7 @@ def scrut_vars(v):
     return [v] if not isinstance(v, list) else [y for x in v for y in scrut_vars(x)]
 
 MISSING = -777
+STRS = ['a', 'b', 'c']
 FALLTHROUGH = -888      # an EMatch without default in which no arm matches: the emitted switch does nothing (NOT a failure)
 class Eval:
     """evaluator of the produced core::Expr over a symbolic scrutinee; results are z3 Int terms (booleans as 0/1, tuples as lists)"""
@@ -74,6 +77,10 @@ class Eval:
         if n == 'EPrim':
             p = f['value']; pn = s.c.PR.variants[p.idx].name; v = p.fields[0]
             if pn == 'Unit': return z3.IntVal(0)
+            if pn == 'String':
+                sv_ = ms.pystr(v)
+                if sv_ not in STRS: raise Unsupported('core evaluator: string literal %r' % sv_)
+                return z3.IntVal(STRS.index(sv_))
             if pn == 'Bool': return ms.zi(v)
             return ms.zi(v)
         if n == 'EVar':
@@ -115,19 +122,20 @@ class Eval:
 
 def toint(v): return z3.If(v, 1, 0) if z3.is_bool(v) else v
 
-def ob_match(r, tier, seed, sty, rows, depth, bind_row=None, flat=False):
+def ob_match(r, tier, seed, sty, rows, depth, bind_row=None, flat=False, force0=None):
     W = e2.fresh_world(CRATES); c = Ctx(W)
     nl = rows * 4
     uses_enum = 'e' in json.dumps(sty)
     sv = sym_scrutinee(sty); flat_t = []
-    def leaf_types(t): return [t] if t in ('b', 'i') else [y for x in t[1] for y in leaf_types(x)]
+    def leaf_types(t): return [t] if t in ('b', 'i', 's') else [y for x in t[1] for y in leaf_types(x)]
     lits_b = [z3.Bool('lb%d' % i) for i in range(nl)]; lits_i = [z3.Int('li%d' % i) for i in range(nl)]
     assumptions = [z3.And(x >= -2**31, x < 2**31) for x in lits_i + [v for v in scrut_vars(sv) if z3.is_int(v)]]
     def enum_tags(v):
         if isinstance(v, EnumVal): return [v.tag]
         return [y for x in v for y in enum_tags(x)] if isinstance(v, list) else []
     assumptions += [z3.And(t_ >= 0, t_ < len(ENUM[1])) for t_ in enum_tags(sv)]
-    r.bounds = 'every matrix of %d rows over a scrutinee of type %s; each pattern lazily wildcard / variable / literal with symbolic value / tuple (depth <= %d)%s; scrutinee value symbolic' % (rows, json.dumps(sty), depth, '; flat rows: every row is a tuple of wildcard-or-literal' if flat else '')
+    assumptions += [z3.And(v >= 0, v <= len(STRS)) for v in scrut_vars(sv) if z3.is_int(v) and str(v).endswith('_str')]
+    r.bounds = ('' if force0 is None else 'shard: the leaf patterns of row 0 are %s; ' % list(force0)) + 'every matrix of %d rows over a scrutinee of type %s; each pattern lazily wildcard / variable / literal with symbolic value / tuple (depth <= %d)%s; scrutinee value symbolic' % (rows, json.dumps(sty), depth, '; flat rows: every row is a tuple of wildcard-or-literal' if flat else '')
     r.assumptions = ['row bodies are distinct integer literals 100+r; a row that binds a variable returns that variable when it is an int, so a wrong binding changes the result',
                      'oracle: first arm in source order whose pattern matches; integer matrices without a catch-all must be rejected with a diagnostic; otherwise no match => missing()',
                      'gensym names, GlobalTypeEnv::new_empty (no enums/structs in scope)']
@@ -145,12 +153,19 @@ def ob_match(r, tier, seed, sty, rows, depth, bind_row=None, flat=False):
         def pat(t, sval, d, row):
             opts = ['wild', 'var', 'lit'] if t in ('b', 'i') else (['wild', 'var', 'tuple'] if d > 0 else ['wild', 'var'])
             if flat: opts = ['wild', 'lit'] if t in ('b', 'i') else ['tuple']
+            if t == 's': opts = ['wild', 'sa', 'sb', 'sc'] + ([] if flat else ['var'])
             if t == 'e': opts = ['wild', 'c0', 'c1', 'c2'] + ([] if flat else ['var'])
-            k = ex.choose([(True, o) for o in opts]); tyv = ty_value(c, t)
+            if force0 is not None and row == 0 and t != sty and forced:
+                k = forced.pop(0)
+                if k not in opts: raise Unsupported('forced option %s not in %s' % (k, opts))
+            else: k = ex.choose([(True, o) for o in opts])
+            tyv = ty_value(c, t)
             if k == 'wild': return c.tpat('PWild', ty=tyv), '_', z3.BoolVal(True), []
             if k == 'var':
                 name = 'v%d_%d' % (row, len(g.vars)); g.vars.append(name)
                 return c.tpat('PVar', name=mkstr(name), ty=tyv, astptr=ms.NONE()), name, z3.BoolVal(True), [(name, t, sval)]
+            if k in ('sa', 'sb', 'sc'):
+                return c.tpat('PPrim', value=c.prim('String', mkstr(k[1])), ty=tyv), 'lit("%s")' % k[1], sval == STRS.index(k[1]), []
             if k in ('c0', 'c1', 'c2'):
                 idx = int(k[1]); vname, vargs = ENUM[1][idx]
                 EC = W.tt.find_adt(['common', 'EnumConstructor'], 'compiler'); CO = W.tt.find_adt(['common', 'Constructor'], 'compiler'); TI = W.tt.find_adt(['tast', 'TastIdent'], 'compiler')
@@ -166,6 +181,7 @@ def ob_match(r, tier, seed, sty, rows, depth, bind_row=None, flat=False):
             for i, st in enumerate(t[1]):
                 p, d_, cn, b = pat(st, sval[i], d - 1, row); items.append(p); ds.append(d_); cs.append(cn); bs += b
             return c.tpat('PTuple', items=PyVec(items), ty=tyv), '(' + ', '.join(ds) + ')', z3.And(*cs) if cs else z3.BoolVal(True), bs
+        forced = list(force0) if force0 is not None else None
         for row in range(rows):
             p, d, cond, binds = pat(sty, sv, depth, row)
             intb = [b for b in binds if b[1] == 'i']
@@ -188,7 +204,9 @@ def ob_match(r, tier, seed, sty, rows, depth, bind_row=None, flat=False):
         core = ex.call('compile_rows', [Ref(h, 0), Ref(h, 1), Ref(h, 2), rws, Ref(h, 3), ms.NONE()])
         ndiag = len(h[2].fields[0].items)
         env = {'s': sv}
-        got = Eval(c).ev(core, env)
+        try: got = Eval(c).ev(core, env)
+        except (z3.Z3Exception, TypeError, IndexError, AttributeError) as e_:
+            return ('ill-typed', '%s: %s' % (type(e_).__name__, str(e_)[:160])), None, ndiag, descs, z3.Or(*conds)
         exp = z3.IntVal(MISSING)
         for cond, bv in reversed(list(zip(conds, bodies))): exp = z3.If(cond, bv, exp)
         return got, exp, ndiag, descs, z3.Or(*conds)
@@ -205,6 +223,9 @@ def ob_match(r, tier, seed, sty, rows, depth, bind_row=None, flat=False):
             m, dt = e2.check(assumptions + p.pc + [z3.Not(anymatch)]); r.queries += 1; r.solver_s += dt
             if m is None: found.setdefault('exhaustive-match-rejected', ('an exhaustive match is rejected with a diagnostic: rows %s' % descs, p, None))
             r.nontrivial += 1; continue
+        if isinstance(got, tuple) and got[0] == 'ill-typed':
+            r.nontrivial += 1
+            found.setdefault('ill-typed-tree', ('the decision tree for rows %s is ill-typed (a projection reads the wrong component): evaluating it fails with %s' % (descs, got[1]), p, (descs, None, None))); continue
         m, dt = e2.check(assumptions + p.pc + [got != exp]); r.queries += 1; r.solver_s += dt
         r.nontrivial += 1
         if m is not None:
@@ -234,6 +255,12 @@ def obligations():
         Ob('O6.1-boolint-4-flat', 'match compiler == first-match, (bool,int32), 4 rows of (wildcard|literal, wildcard|literal)', ob_match, ('quick', 'thorough'), 10, dict(sty=TBI, rows=4, depth=1, flat=True)),
         Ob('O6.1-intint-4-flat', 'match compiler == first-match, (int32,int32), 4 rows of (wildcard|literal, wildcard|literal)', ob_match, ('quick', 'thorough'), 10, dict(sty=('t', ['i', 'i']), rows=4, depth=1, flat=True)),
         Ob('O6.1-intintbool-3-flat', 'match compiler == first-match, (int32,int32,bool), 3 flat rows', ob_match, ('quick', 'thorough'), 10, dict(sty=('t', ['i', 'i', 'b']), rows=3, depth=1, flat=True)),
+        Ob('O6.1-str-3', 'match compiler == first-match, string scrutinee, 3 rows over the literals "a" "b" "c"', ob_match, ('quick', 'thorough'), 5, dict(sty='s', rows=3, depth=0)),
+        Ob('O6.1-intstr-3-flat', 'match compiler == first-match, (int32,string), 3 flat rows', ob_match, ('quick', 'thorough'), 20, dict(sty=('t', ['i', 's']), rows=3, depth=1, flat=True)),
+    ] + [
+        Ob('O6.1-intstr-4-flat-%s-%s' % (a, b), 'match compiler == first-match, (int32,string), 4 flat rows, row 0 = (%s, %s)' % (a, b), ob_match, ('quick', 'thorough'), 25, dict(sty=('t', ['i', 's']), rows=4, depth=1, flat=True, force0=(a, b)))
+        for a in ('wild', 'lit') for b in ('wild', 'sa', 'sb', 'sc')] + [
+        Ob('O6.1-enumintint-3-flat', 'match compiler == first-match, (E,int32,int32), 3 flat rows (constructor payload patterns)', ob_match, ('thorough',), 450, dict(sty=('t', ['e', 'i', 'i']), rows=3, depth=2, flat=True)),
         Ob('O6.1-boolint-4', 'match compiler == first-match, (bool,int32) scrutinee, 4 rows', ob_match, ('thorough',), 200, dict(sty=TBI, rows=4, depth=1)),
         Ob('O6.1-intint-4', 'match compiler == first-match, (int32,int32) scrutinee, 4 rows', ob_match, ('thorough',), 300, dict(sty=('t', ['i', 'i']), rows=4, depth=1)),
         Ob('O6.1-nested-3', 'match compiler == first-match, ((bool,int32),bool) scrutinee, 3 rows', ob_match, ('thorough',), 200, dict(sty=('t', [TBI, 'b']), rows=3, depth=2)),
